@@ -14,13 +14,16 @@ from vk import core, explore, scen, sim, monitors as M
 from vk.explore import Scenario
 
 
+SLOW_EVENTS = ["EVT_CONN_OPEN", "EVT_REQUESTED", "EVT_ACSE_RECV", "EVT_PDU_RECV", "EVT_ACCEPTED", "EVT_ACSE_SENT", "EVT_FSM_TRANSITION"]
+
+
 class Crowd(Scenario):
     max_steps = 120000
     max_time = 60.0
 
-    def __init__(self, limit, n, hold=0.3, stagger=0.0):
-        self.limit, self.n, self.hold, self.stagger = limit, n, hold, stagger
-        self.name = f"crowd[limit={limit},n={n},hold={hold},stagger={stagger}]"
+    def __init__(self, limit, n, hold=0.3, stagger=0.0, slow=None, threaded=False):
+        self.limit, self.n, self.hold, self.stagger, self.slow, self.threaded = limit, n, hold, stagger, slow, threaded
+        self.name = f"crowd[limit={limit},n={n},hold={hold},stagger={stagger}{',slow=' + slow if slow else ''}{',threaded-server' if threaded else ''}]"
 
     def build(self, s):
         from pynetdicom import evt
@@ -40,7 +43,12 @@ class Crowd(Scenario):
             if len(live) > self.limit:
                 ctx["over"].append(len(live))
 
-        scen.start_server(s, acc, [(evt.EVT_ESTABLISHED, on_est)], max_requests=self.n)
+        handlers = [(evt.EVT_ESTABLISHED, on_est)]
+        if self.slow:
+            # an acceptor-side notification handler that takes a little while: the thread that runs it
+            # (connection handler, negotiation or provider thread) is overtaken by the other requests
+            handlers.append((getattr(evt, self.slow), lambda event: s.sleep(0.05)))
+        scen.start_server(s, acc, handlers, max_requests=self.n, threaded=self.threaded)
 
         def mk_user(i):
             def user():
@@ -88,10 +96,15 @@ class Crowd(Scenario):
 
 def run(ctx: core.Ctx) -> core.Result:
     scns = [Crowd(1, 2), Crowd(2, 3), Crowd(1, 2, stagger=0.301), Crowd(1, 1), Crowd(2, 2)]
+    # the server of AE.start_server(block=False): one handler thread per connection
+    scns += [Crowd(1, 2, threaded=True), Crowd(2, 3, threaded=True)]
+    # default schedule only (D = 0, see below): a slow acceptor-side handler at each early event
+    slow_scns = [Crowd(lim, lim + 1, slow=ev, threaded=th) for lim in (1, 2) for ev in SLOW_EVENTS for th in (False, True)]
     if not ctx.quick:
         scns += [Crowd(1, 3), Crowd(2, 4), Crowd(2, 3, stagger=0.15)]
     D = 1
-    res = explore.explore_family(scns, D=D, seed=ctx.seed)
+    res = list(explore.explore_family(scns, D=D, seed=ctx.seed)) + list(explore.explore_family(slow_scns, D=0 if ctx.quick else 1, seed=ctx.seed))
+    scns = scns + slow_scns
     deep = []
     if not ctx.quick:
         # two deviations: only for the smallest crowd (limit 1, two requestors) - with three or four
@@ -111,7 +124,7 @@ def run(ctx: core.Ctx) -> core.Result:
         for k, (t, pfx) in r["viols"].items():
             if k not in seen:
                 seen.add(k)
-                viol.append(core.Violation(k, t, {"limit": scn.limit, "n": scn.n, "hold": scn.hold, "stagger": scn.stagger, "choices": pfx}))
+                viol.append(core.Violation(k, t, {"limit": scn.limit, "n": scn.n, "hold": scn.hold, "stagger": scn.stagger, "slow": scn.slow, "threaded": scn.threaded, "choices": pfx}))
         ctx.log(f"{scn.name}: executions={r['stats']['executions']} outcomes={len(r['summaries'])} peaks={sorted({k[1] for k in r['summaries']})}")
     cov = {
         "states": tot["steps"],
@@ -128,7 +141,7 @@ def run(ctx: core.Ctx) -> core.Result:
 
 
 def replay(ctx, data):
-    scn = Crowd(data["limit"], data["n"], data.get("hold", 0.3), data.get("stagger", 0.0))
+    scn = Crowd(data["limit"], data["n"], data.get("hold", 0.3), data.get("stagger", 0.0), data.get("slow"), data.get("threaded", False))
     r = explore.execute(scn, tuple(data["choices"]), want_obs=True)
     for o in r["obs"]:
         if o[0] != "evt":
